@@ -745,6 +745,8 @@ class Symex:
                 obj.attrs[t.attr] = v
             elif isinstance(obj, T):
                 self.effects.append(T("setattr", obj, t.attr, v))
+            elif isinstance(obj, Func):
+                pass    # metadata of a function object (__doc__, __name__) does not influence its evaluation
             elif hasattr(obj, "sx_setattr"):
                 obj.sx_setattr(t.attr, v)
             else:
@@ -1736,7 +1738,8 @@ class Symex:
             for x in args:
                 out.extend(self.iterate(x, node))
             return out
-        if name in ("product", "itertools.product") and all(not isinstance(a, T) for a in args):
+        if name in ("product", "itertools.product") and all(not isinstance(a, T) for a in args) \
+                and isinstance(kw.get("repeat", 1), int):
             import itertools
             rep = kw.get("repeat", 1)
             return [tuple(p) for p in itertools.product(*[list(self.iterate(a, node)) for a in args], repeat=rep)]
@@ -1811,6 +1814,9 @@ class Symex:
                 raise
             except TypeError as e:
                 if name in ("sorted", "min", "max", "set", "dict") or "unhashable" in str(e):
+                    return self.opaque_call(name, args, kw)
+                if any(_has_sym(a) or isinstance(a, Obj) for a in list(args) + list(kw.values())):
+                    # a builtin applied to a symbolic value stays an uninterpreted call
                     return self.opaque_call(name, args, kw)
                 self.unsupported(node, f"builtin {name}: {e}")
             except ValueError:
